@@ -137,7 +137,7 @@ func (f *recFile) WriteAt(p []byte, off int64) (int, error) {
 		f.r.add(fileOp{File: f.name, Kind: "write", Off: off, Data: nil, Err: true})
 		return 0, fmt.Errorf("injected write failure")
 	}
-	if f.r.shouldFail("shortwrite", f.name, off, len(p)) && len(p) > 1 {
+	if len(p) > 1 && f.r.shouldFail("shortwrite", f.name, off, len(p)) {
 		n := len(p) / 2
 		f.f.WriteAt(p[:n], off)
 		f.r.add(fileOp{File: f.name, Kind: "write", Off: off, Data: append([]byte{}, p[:n]...), Err: true})
